@@ -19,6 +19,8 @@ import Pandora.Proofs.C15Gcd
 import Pandora.Proofs.C15Ring
 import Pandora.Proofs.C15RingSpec
 import Pandora.Proofs.C15Shoot
+import Pandora.Proofs.C15Verdict
+import Pandora.Proofs.C15Post
 import Pandora.Proofs.C15Next
 import Pandora.Proofs.C15Lock
 import Pandora.Bridge.C15Scen
@@ -117,6 +119,65 @@ theorem C15_stop_first_failure {Req Resp : Type} (w : World Req Resp) (source : 
     (¬ StepSucceeds w source st rv g →
       b = false ∧ ∃ rv1, shootStep w source scName st rv g = some (false, rv1, g')) :=
   shootLoop_cons w source scName st rest rv g b g' h
+
+/-- **the judge of the correspondence run holds of the model** (stop on failure / order / multiplicity as `./check`
+judges them on what the REAL gun did): seen from outside — the target logs the name of every request it receives (`nm`;
+every request rendered from a definition `d` is recognisably a request `d.name`: `Named`), the aggregator logs every
+sample — the events a shot adds are accepted by the executable predicate `Spec.C15.shotVerdict` for the step-name list
+of the scenario: the i-th sample belongs to the i-th listed step, requests follow the listed order, a failed sample is
+the last event, without a failure every step was executed, and there is at most one request without sample. -/
+theorem C15_shot_verdict {Req Resp : Type} (w : World Req Resp) (nm : Req → String) (hnm : Named w nm) (source : Val)
+    (sc : Scenario ReqDef) (g : GState Req) (b : Bool) (g' : GState Req) (h : shoot w source sc g = some (b, g')) :
+    ∃ evs, obsLog nm g'.log = obsLog nm g.log ++ evs ∧
+      shotVerdict (String.ofList sc.name) (sc.steps.map (·.req.name)) evs = "ok" := by
+  obtain ⟨evs, he, hs⟩ := shootLoop_shape w nm hnm source (String.ofList sc.name) sc.steps [] g b g' h
+  exact ⟨evs, he, verdict_of_shape hs⟩
+
+/-- the same with the expected step names computed the way the driver computes them — from the MEANING of the
+request list (`specSteps`), not from the decoder's output: for a scenario of an accepted description whose registry
+stores every request under its own name, every shot of the decoded scenario is accepted by `shotVerdict`. -/
+theorem C15_shot_verdict_listed {Req Resp : Type} (reqs : List Char → Option ReqDef)
+    (hreg : ∀ n d, reqs n = some d → d.name = String.ofList n) (sc : ScenarioCfg) (steps : List (Step ReqDef))
+    (hx : expand reqs sc.requests [] = .ok steps)
+    (w : World Req Resp) (nm : Req → String) (hnm : Named w nm) (source : Val)
+    (g : GState Req) (b : Bool) (g' : GState Req)
+    (h : shoot w source { name := sc.name, minWaitingTime := sc.minWaitingTime, steps } g = some (b, g')) :
+    ∃ items psteps evs, parseAll sc.requests = some items ∧ specSteps items = some psteps ∧
+      obsLog nm g'.log = obsLog nm g.log ++ evs ∧
+      shotVerdict (String.ofList sc.name) (psteps.map fun p => String.ofList p.1) evs = "ok" := by
+  obtain ⟨items, hp, hspec, _, hreq⟩ := C15_order_mult reqs sc.requests steps hx
+  obtain ⟨evs, he, hv⟩ := C15_shot_verdict w nm hnm source _ g b g' h
+  refine ⟨items, steps.map proj, evs, hp, hspec, he, ?_⟩
+  have e : (steps.map proj).map (fun p => String.ofList p.1) = steps.map (·.req.name) := by
+    rw [List.map_map]
+    apply List.map_congr_left
+    intro st hst
+    simp only [Function.comp, proj]
+    exact (hreg _ _ (hreq st hst)).symm
+  rw [e]
+  exact hv
+
+/-! ## what "a failed assertion" and "a captured header value" are (pandora's own postprocessors) -/
+
+/-- **a failed assertion**: `assert/response` lets the step go on exactly when every configured body text occurs in the
+response body, every configured header text occurs in the value of its header, the status code is the configured
+one (0 = not configured) and the body length satisfies the configured size relation (`eq`/`=`: equal, `lt`/`<`: at most
+`val`, `gt`/`>`: at least `val`; an unknown operator fails) — measured on the body that was received, also when no body
+text is configured (repair e0ff541). In every other case the step fails (`C15_step_outcome`: `runPosts` = `none`). -/
+theorem C15_assert_outcome (a : AssertCfg) (r : RespView) :
+    assertResponse a r = true ↔
+      (∀ p ∈ a.body, isSub p r.body = true) ∧
+      (∀ kv ∈ a.headers, isSub kv.2 (r.header kv.1) = true) ∧
+      (a.status = 0 ∨ a.status = r.status) ∧
+      (∀ s, a.size = some s → sizeHolds s.op s.val r.body.length) :=
+  assertResponse_iff a r
+
+/-- the `substr(start, end)` modifier of `var/header` never slices out of range (no panic inside a postprocessor),
+whatever the arguments (negative = from the end) and the length of the header value -/
+theorem C15_substr_in_range (start stop l : Int) (hl : 0 ≤ l) :
+    0 ≤ (substrBounds start stop l).1 ∧ (substrBounds start stop l).1 ≤ (substrBounds start stop l).2 ∧
+      (substrBounds start stop l).2 ≤ l :=
+  substrBounds_range start stop l hl
 
 /-! ## variable flow -/
 
@@ -495,6 +556,46 @@ example : (shoot (exWorld 2) (.map []) exSc exG).map (fun r => (r.1, r.2.log)) =
     some (false, [.request "a:-", .sample "s.a" 200 false, .pause 3, .request "b:T",
                   .sample "s.b|__EMPTY__" 0 true]) := by decide
 
+
+-- C15_shot_verdict: a world whose requests are pairs (name of the definition, rendered text) is `Named` by the first
+-- component; the judge accepts the outside view of its shots (one that fails at the 2nd request, one that does not) and is
+-- NOT blind: it rejects a log that goes on after the failed step, one that skips a step without a failure, and one whose
+-- samples are out of the listed order
+def exWorldP (failAt : Nat) : World (String × String) Nat where
+  render := fun d t => some (d.name, (strAt (.map t) ["request", "a", "postprocessor", "tok"]).getD "-")
+  target := fun hist => if hist.length == failAt then none else some 200
+  post := fun id _ => if id == 0 then some [("tok", .str "T")] else some []
+  code := fun r => r
+example (k : Nat) : Named (exWorldP k) Prod.fst := by
+  intro d t r h
+  cases h
+  rfl
+example : (shoot (exWorldP 2) (.map []) exSc { iter := Iter.empty, hist := [], log := [] }).map
+      (fun r => (obsLog Prod.fst r.2.log, shotVerdict "s" ["a", "b", "b"] (obsLog Prod.fst r.2.log))) =
+    some ([.req "a", .sample "s.a" false, .req "b", .sample "s.b|__EMPTY__" true], "ok") ∧
+  (shoot (exWorldP 9) (.map []) exSc { iter := Iter.empty, hist := [], log := [] }).map
+      (fun r => shotVerdict "s" ["a", "b", "b"] (obsLog Prod.fst r.2.log)) = some "ok" := by decide
+example : shotVerdict "s" ["a", "b", "b"]
+      [.req "a", .sample "s.a" false, .req "b", .sample "s.b|__EMPTY__" true, .req "b", .sample "s.b" false] =
+    "fail:stop:events after the failed step" ∧
+  shotVerdict "s" ["a", "b", "b"] [.req "a", .sample "s.a" false, .req "b", .sample "s.b" false] =
+    "fail:mult:no failure but not every step was executed" ∧
+  shotVerdict "s" ["a", "b", "b"] [.req "b", .sample "s.b" false] =
+    "fail:order:sample tags do not follow the listed order" := by decide
+
+-- C15_assert_outcome: a 20-byte response against `size lt 7` alone (fails: the body IS measured), against a combined
+-- block that holds, and the header capture `x-tok|lower|substr(1,-1)|replace(0,zz)` of `H0x0`
+def exResp : RespView :=
+  { status := 200, body := "{\"tok\":\"T0x0\",\"n\":0}".toList,
+    header := fun n => if n.map lowerC == "x-tok".toList then "H0x0".toList else [] }
+example : assertResponse { headers := [], body := [], status := 0, size := some { val := 7, op := "lt" } } exResp = false ∧
+    assertResponse { headers := [("X-Tok".toList, "0x".toList)], body := ["tok".toList], status := 200,
+                     size := some { val := 20, op := "=" } } exResp = true ∧
+    assertResponse { headers := [], body := ["ZZ".toList], status := 0, size := none } exResp = false := by decide
+example : (varHeader [("h", "x-tok|lower|substr(1,-1)|replace(0,zz)".toList), ("m", "X-None|upper".toList)] exResp).toOption.map
+      (fun vs => vs.map fun kv => (kv.1, match kv.2 with | .str s => s | _ => "?")) = some [("h", "zzx")] ∧
+    (varHeader [("h", "x-tok|nosuch".toList)] exResp).toOption.isNone = true ∧ substrBounds (-1) 0 4 = (3, 4) ∧
+    substrBounds 7 (-9) 4 = (0, 4) := by decide
 
 -- C15_step_outcome / C15_stop_first_failure: in `exWorld 2` the first step succeeds and the second does not
 example : StepSucceeds (exWorld 2) (.map []) exSc.steps[0] [] exG :=
